@@ -385,9 +385,7 @@ func (r *Runtime) arrayproto_sort(call FunctionCall) Value {
 	}
 
 	var s sortable
-	if r.checkStdArrayObj(o) != nil {
-		s = o.self
-	} else if _, ok := o.self.(reflectValueWrapper); ok {
+	if _, ok := o.self.(reflectValueWrapper); ok {
 		s = o.self
 	}
 
@@ -399,12 +397,22 @@ func (r *Runtime) arrayproto_sort(call FunctionCall) Value {
 
 		sort.Stable(&ctx)
 	} else {
-		length := toLength(o.self.getStr("length", nil))
-		a := make([]Value, 0, length)
-		for i := int64(0); i < length; i++ {
-			idx := valueInt(i)
-			if o.self.hasPropertyIdx(idx) {
-				a = append(a, nilSafe(o.self.getIdx(idx, nil)))
+		// The values are collected first, then sorted and then written back, so that the comparator
+		// cannot affect the sort by modifying the array.
+		var a []Value
+		var length int64
+		if arr := r.checkStdArrayObj(o); arr != nil {
+			a = make([]Value, len(arr.values))
+			copy(a, arr.values)
+			length = int64(len(a))
+		} else {
+			length = toLength(o.self.getStr("length", nil))
+			a = make([]Value, 0, length)
+			for i := int64(0); i < length; i++ {
+				idx := valueInt(i)
+				if o.self.hasPropertyIdx(idx) {
+					a = append(a, nilSafe(o.self.getIdx(idx, nil)))
+				}
 			}
 		}
 		ar := r.newArrayValues(a)
@@ -1810,9 +1818,16 @@ func (a *arraySortCtx) Len() int {
 }
 
 func (a *arraySortCtx) Less(j, k int) bool {
+	if l := a.obj.sortLen(); j >= l || k >= l {
+		// the comparator has truncated the (Go-backed) array
+		return false
+	}
 	return a.sortCompare(a.obj.sortGet(j), a.obj.sortGet(k)) < 0
 }
 
 func (a *arraySortCtx) Swap(j, k int) {
+	if l := a.obj.sortLen(); j >= l || k >= l {
+		return
+	}
 	a.obj.swap(j, k)
 }
